@@ -245,7 +245,10 @@ theorem safe_leave (env : Env) (fuel : Nat) (ih : Safe env fuel) :
   intro kvs name state raw data ctx r st hI hd hl hc
   simp only [illLeave]
   by_cases hE : isTrue (fld state "End") = true
-  · simp [hE]
+  · simp only [hE, ↓reduceIte]
+    split
+    · exact ih.err _ _ _ _ _ _ _ _ _ hI hd hc
+    · rfl
   · have hE' : isTrue (fld state "End") = false := by simpa using hE
     obtain ⟨n, hn, hdn⟩ := leaveOk_next hl hE'
     simp only [hE', hn, Bool.false_eq_true, ↓reduceIte]
